@@ -722,6 +722,10 @@ func (h *tbHist) emptySeats() []int {
 func (h *tbHist) arrive(joinProb float64) {
 	id := h.fresh()
 	chips := int64(50 + h.r.Intn(950))
+	if h.r.Intn(20) == 0 {
+		chips = 0 // a seat taken with no chips yet (they come later, by PlayerRedeemChips): the seat manager counts him as having chips
+		h.st.OpMix["arrival-with-no-chips"]++
+	}
 	seat := -1
 	if e := h.emptySeats(); len(e) > 0 && h.r.Intn(2) == 0 {
 		seat = e[h.r.Intn(len(e))]
